@@ -702,7 +702,7 @@ fn mix(mut z: u64) -> u64 {
 #[derive(Default)]
 struct Acc {
     lines: Vec<String>,      // selected for Coq
-    fails: Vec<String>,      // oracle failures
+    fails: std::collections::BTreeSet<(usize, String)>, // oracle failures: the 40 smallest (by length, then text)
     n: u64,                  // cases executed (oracle evaluations)
     calls: u64,
     res: [u64; 4],           // Some / None / Cancelled / Panic
@@ -713,12 +713,17 @@ struct Acc {
 }
 
 impl Acc {
+    fn add_fail(&mut self, line: String) {
+        self.fails.insert((line.len(), line));
+        while self.fails.len() > 40 {
+            let last = self.fails.iter().next_back().cloned().unwrap();
+            self.fails.remove(&last);
+        }
+    }
     fn merge(&mut self, o: Acc) {
         self.lines.extend(o.lines);
         for f in o.fails {
-            if self.fails.len() < 40 {
-                self.fails.push(f);
-            }
+            self.add_fail(f.1);
         }
         self.n += o.n;
         self.calls += o.calls;
@@ -771,11 +776,9 @@ fn process(acc: &mut Acc, global: &Table, kind: &str, script: &Script, steps: &[
     }
     let verdict = oracle(steps, &obs, &consumed);
     if let Some(what) = verdict {
-        if acc.fails.len() < 40 {
-            acc.fails.push(format!("FAIL\t{}\t{}", what, spec_string(script, steps)));
-        }
+        acc.add_fail(format!("FAIL\t{}\t{}", what, spec_string(script, steps)));
     }
-    if select || (verdict.is_some() && acc.lines.len() < 200) {
+    if select {
         acc.lines.push(format!(
             "{}\t{}\t{}\t{}",
             kind,
@@ -835,30 +838,41 @@ fn explore(
 
 fn parallel<T: Sync, F: Fn(usize, &T, &mut Acc) + Sync>(items: &[T], f: F) -> Acc {
     let nthreads = std::thread::available_parallelism().map(|n| n.get()).unwrap_or(4).min(16);
-    let chunk = (items.len() + nthreads - 1) / nthreads.max(1);
+    let next = std::sync::atomic::AtomicUsize::new(0);
     let mut total = Acc::default();
-    if items.is_empty() {
-        return total;
-    }
-    let accs: Vec<Acc> = std::thread::scope(|sc| {
-        let hs: Vec<_> = items
-            .chunks(chunk.max(1))
-            .enumerate()
-            .map(|(ci, ch)| {
+    let parts: Vec<(Acc, Vec<(usize, Vec<String>)>)> = std::thread::scope(|sc| {
+        let hs: Vec<_> = (0..nthreads)
+            .map(|_| {
                 let f = &f;
+                let next = &next;
                 sc.spawn(move || {
                     let mut acc = Acc::default();
-                    for (j, it) in ch.iter().enumerate() {
-                        f(ci * chunk.max(1) + j, it, &mut acc);
+                    let mut tagged: Vec<(usize, Vec<String>)> = Vec::new();
+                    loop {
+                        let i = next.fetch_add(1, std::sync::atomic::Ordering::Relaxed);
+                        if i >= items.len() {
+                            break;
+                        }
+                        f(i, &items[i], &mut acc);
+                        if !acc.lines.is_empty() {
+                            tagged.push((i, std::mem::take(&mut acc.lines)));
+                        }
                     }
-                    acc
+                    (acc, tagged)
                 })
             })
             .collect();
         hs.into_iter().map(|h| h.join().expect("worker")).collect()
     });
-    for a in accs {
-        total.merge(a); // chunk order: deterministic
+    // deterministic whatever the thread schedule: lines in item order, counters are sums, fails = 40 smallest
+    let mut all: Vec<(usize, Vec<String>)> = Vec::new();
+    for (a, t) in parts {
+        total.merge(a);
+        all.extend(t);
+    }
+    all.sort_by_key(|x| x.0);
+    for (_, l) in all {
+        total.lines.extend(l);
     }
     total
 }
@@ -880,10 +894,10 @@ fn random_case(r: &mut impl RngCore) -> (Script, Vec<Step>) {
         ids.push(id);
     }
     let mut pool: Vec<Vec<u8>> = Vec::new();
-    let nfr = 2 + (r.next_u32() % 8) as usize;
+    let nfr = 2 + (r.next_u32() % 6) as usize;
     for _ in 0..nfr {
         let id = ids[(r.next_u32() as usize) % nid];
-        let plen = [0usize, 0, 1, 3, 32, 40][(r.next_u32() % 6) as usize];
+        let plen = [0usize, 0, 1, 2, 3, 32][(r.next_u32() % 6) as usize];
         let mut pl = vec![0u8; plen];
         r.fill_bytes(&mut pl);
         if plen == 32 && r.next_u32() % 2 == 0 {
@@ -988,8 +1002,8 @@ pub fn run(kv: &Args) -> i32 {
         let syms: Vec<u8> = (0..u.len() as u8).collect();
         let scripts = rx_scripts(&syms, if thorough { 4 } else { 4 }, true);
         // quick: a seeded slice of the scripts with >= 3 items; thorough: all
-        let slice_mod: u64 = if thorough { 1 } else { kv.u64("slice", 24) };
-        let rate: u64 = kv.u64("rate", if thorough { 90 } else { 28 });
+        let slice_mod: u64 = if thorough { 1 } else { kv.u64("slice", 8) };
+        let rate: u64 = kv.u64("rate", if thorough { 330 } else { 800 });
         let seqs3 = call_seqs(alphabet.len(), 3);
         let seqs4 = call_seqs(alphabet.len(), 4);
         let work: Vec<(usize, &Vec<u8>)> = scripts
@@ -1038,7 +1052,7 @@ pub fn run(kv: &Args) -> i32 {
             }
         }
         let sink_mod: u64 = if thorough { 1 } else { 3 };
-        let sink_rate: u64 = if thorough { 12 } else { 40 };
+        let sink_rate: u64 = kv.u64("sinkrate", if thorough { 100 } else { 300 });
         let seqs2 = call_seqs(alphabet.len(), 2);
         let sink_sel: Vec<(usize, &Script)> =
             sink_work.iter().enumerate().filter(|(i, _)| mix(key ^ 0x5151 ^ (*i as u64)) % sink_mod == 0).collect();
@@ -1054,7 +1068,7 @@ pub fn run(kv: &Args) -> i32 {
         total.merge(a);
 
         // ---- (3) seeded random long runs (all go to the model)
-        let n_rand = kv.u64("nrand", if thorough { 6000 } else { 500 });
+        let n_rand = kv.u64("nrand", if thorough { 5000 } else { 300 });
         let mut r = rng(seed, "c17-random");
         let mut a = Acc::default();
         for _ in 0..n_rand {
@@ -1073,7 +1087,7 @@ pub fn run(kv: &Args) -> i32 {
     std::fs::write(format!("{out}/header.v"), format!("Definition T : list (list N) := {}.\n", global.coq())).unwrap();
     let mut f = std::fs::File::create(format!("{out}/oracle.txt")).unwrap();
     writeln!(f, "evaluations {}", total.n).unwrap();
-    for l in &total.fails {
+    for (_, l) in &total.fails {
         writeln!(f, "{}", l).unwrap();
     }
     let mut st = String::from("{");
